@@ -30,7 +30,7 @@ def gen_reading(rng, mode: str):
     """A reading value: numbers with ties, missing, and (in 'wild' mode) bools and dicts."""
     r = rng.random()
     if mode == "clean":
-        return rng.choice([1, 2, 2, 3, 5, 8]) if r < 0.3 else round(rng.uniform(0, 10), 1)
+        return rng.choice([1, 2, 2, 3, 5, 8, 0, 0.0]) if r < 0.35 else round(rng.uniform(0, 10), 1)
     if r < 0.18:
         return None
     if r < 0.25:
@@ -43,7 +43,7 @@ def gen_reading(rng, mode: str):
         if r < 0.36:
             return 0
     if r < 0.6:
-        return rng.choice([1, 2, 2, 3, 5, 8, -1])
+        return rng.choice([1, 2, 2, 3, 5, 8, -1, 0, 0.0, 0])
     return round(rng.uniform(-5, 10), 1)
 
 
